@@ -233,25 +233,66 @@ def history(rng, rep, budget, fails, jobs):
                     l2 = [l for l in c2["out"].decode("utf-8", "replace").split("\n") if l.strip()]
                     if len(l2) != m or c2["rc"] != 0:
                         fails.append(dict(what="`ls %s` printed %d lines (exit %d) for %d files" % (o, len(l2), c2["rc"], m), history=hist))
+                    # history commands: one line per version in compact form
+                    lg = pair.live.ask("log %s" % hx(o))
+                    c3 = pair.sb.run(["log", "-c", o])
+                    if lg.startswith("ok "):
+                        nv = len(json.loads(lg[3:]))
+                        l3 = [l for l in c3["out"].decode("utf-8", "replace").split("\n") if l.strip()]
+                        rep.count("log:%d" % nv)
+                        rep.evaluations += 1
+                        if len(l3) != nv or c3["rc"] != 0:
+                            fails.append(dict(what="`log -c %s` printed %d lines (exit %d) for %d versions: %s" % (o, len(l3), c3["rc"], nv, c3["err"][:200]), history=hist))
+                    paths = sorted(json.loads(st[3:])["state"])
+                    for pth in paths[:2]:
+                        fl = pair.live.ask("flog %s %s" % (hx(o), hx(pth)))
+                        c4 = pair.sb.run(["log", "-c", o, pth])
+                        if fl.startswith("ok "):
+                            nf = len(json.loads(fl[3:]))
+                            l4 = [l for l in c4["out"].decode("utf-8", "replace").split("\n") if l.strip()]
+                            rep.evaluations += 1
+                            if len(l4) != nf or c4["rc"] != 0:
+                                fails.append(dict(what="`log -c %s %s` printed %d lines (exit %d), the library lists %d versions" % (o, pth, len(l4), c4["rc"], nf), history=hist))
+                    inf = pair.live.ask("info %s" % hx(o))
+                    c5 = pair.sb.run(["info", o])
+                    if inf.startswith("ok "):
+                        J5 = json.loads(inf[3:])
+                        t5 = c5["out"].decode("utf-8", "replace")
+                        rep.evaluations += 1
+                        if c5["rc"] != 0 or str(J5["spec"]) not in t5 or str(J5["alg"]) not in t5:
+                            fails.append(dict(what="`info %s` (exit %d) does not show the library's answer %s: %s" % (o, c5["rc"], J5, t5[:200]), history=hist))
         # validate: object and repository mode under options, after identical damage on both sides
         validate_cases(rng, rep, pair, budget, fails, jobs, hist)
-        # ls over an object that cannot be read: the listing goes on, the exit status is 1
-        if rng.random() < 0.5:
+        # listings over objects that cannot be read: the listing goes on, the exit status is 1 — for every
+        # rendering (streamed, table, physical paths, sorted) and for the staged listings (`status`, `ls -S`)
+        if rng.random() < 0.6:
+            everything = rng.random() < 0.5
             for top in (os.path.join(pair.hdir, "root"), pair.sb.root):
-                objs = sorted(d for d, _, fs in os.walk(top) if any(f.startswith("0=ocfl_object") for f in fs) and "rocfl-staging" not in d)
-                if objs:
-                    open(os.path.join(objs[0], "inventory.json"), "w").write("{ not json")
-            lib = pair.live.ask("ls -")
-            cli = pair.sb.run(["ls"])
-            if lib.startswith("ok "):
+                objs = sorted(d for d, _, fs in os.walk(top) if any(f.startswith("0=ocfl_object") for f in fs))
+                main = [d for d in objs if "rocfl-staging" not in d]
+                staged = [d for d in objs if "rocfl-staging" in d]
+                for group in (main, staged):
+                    for d in (group if everything else group[:1]):
+                        open(os.path.join(d, "inventory.json"), "w").write("{ not json")
+            for staged_listing, variants in ((False, [["ls"], ["ls", "-l"], ["ls", "-p"], ["ls", "-s", "version"], ["ls", "-l", "-r"], ["ls", "-o"]]),
+                                             (True, [["ls", "-S"], ["ls", "-S", "-l"], ["status"], ["ls", "-S", "-s", "name"]])):
+                lib = pair.live.ask("lsstaged -" if staged_listing else "ls -")
+                if not lib.startswith("ok "):
+                    continue
                 J = json.loads(lib[3:])
-                lines = [l for l in cli["out"].decode("utf-8", "replace").split("\n") if l.strip()]
                 want = 0 if J["errors"] == 0 else 1
-                rep.evaluations += 1
-                rep.count("ls-with-unreadable:%d:rc%d" % (J["errors"], cli["rc"]))
-                rep.classes.add("ls|unreadable%d|rc%d" % (min(J["errors"], 1), cli["rc"]))
-                if cli["rc"] != want or len(lines) != len(J["objects"]):
-                    jobs.append(dict(kind="exit", what="`ls` with %d unreadable object(s) printed %d lines for %d readable objects and exits %d (model: %d)" % (J["errors"], len(lines), len(J["objects"]), cli["rc"], want), history=hist[-4:]))
+                for a in variants:
+                    cli = pair.sb.run(a)
+                    text = cli["out"].decode("utf-8", "replace")
+                    lines = [l for l in text.split("\n") if l.strip()]
+                    rep.evaluations += 1
+                    rep.count("listing-with-unreadable:%s:%s:rc%d" % ("staged" if staged_listing else "main", "all" if (J["errors"] and not J["objects"]) else ("some" if J["errors"] else "none"), cli["rc"]))
+                    rep.classes.add("%s|unreadable%d|readable%d|rc%d" % (" ".join(a), min(J["errors"], 1), min(len(J["objects"]), 1), cli["rc"]))
+                    if cli["rc"] != want:
+                        jobs.append(dict(kind="exit", what="`%s` with %d unreadable and %d readable object(s) exits %d (model: %d)" % (" ".join(a), J["errors"], len(J["objects"]), cli["rc"], want), history=hist[-4:]))
+                    # one entry per readable object (tables may add a header line)
+                    if a in (["ls"], ["ls", "-S"], ["ls", "-p"], ["ls", "-o"]) and len(lines) != len(J["objects"]):
+                        jobs.append(dict(kind="exit", what="`%s` printed %d lines for %d readable objects" % (" ".join(a), len(lines), len(J["objects"])), history=hist[-4:]))
     finally:
         pair.close()
 
